@@ -42,11 +42,13 @@ GEN = {
         (3, "min", [3], [2], [2], ["all"], ["view"], ["mod2"], 1200),
     ],
     "thorough": [
-        (1, "full", [1, 2, 3, 4], [1, 2, 3], [0, 1, 2], ["all", "none", "w", "names"], ALLSTORES, ["mod3", "mod2", "const"], None),
-        (2, "full", [3, 4], [2], [0, 1, 2], ["all"], ["owned", "view", "woff", "ownedf", "views2"], ["mod3", "mod2"], None),
-        (3, "mid", [3], [2], [0, 2], ["all"], ["owned", "view"], ["mod2"], None),
-        (4, "min", [4], [2], [0], ["all"], ["owned"], ["mod2"], 20000),
-        (4, "min", [4], [2], [2], ["all"], ["view"], ["mod2"], 20000),
+        (1, "full", [1, 2, 3, 4], [1, 2, 3], [0, 1, 2], ["all", "none", "w", "names"], ["owned", "view"], ["mod3", "mod2"], None),
+        (1, "full", [2, 3, 4], [2], [0, 2], ["all"], ["ownedoff", "woff", "ownedf", "views2"], ["mod2", "const"], None),
+        (2, "full", [3], [2], [0, 2], ["all"], ["owned", "view"], ["mod2"], None),
+        (2, "mid", [4], [2], [0, 1, 2], ["all"], ["owned", "view", "woff", "ownedf", "views2"], ["mod3"], None),
+        (3, "mid", [3], [2], [0, 2], ["all"], ["owned", "view"], ["mod2"], 12000),
+        (4, "min", [4], [2], [0], ["all"], ["owned"], ["mod2"], 6000),
+        (4, "min", [4], [2], [2], ["all"], ["view"], ["mod2"], 6000),
     ],
 }
 
@@ -206,7 +208,7 @@ def run(ctx):
     vlib.sample(ctx, [t for t in traces if len(t["inp"]["prog"]) == 2 and t["inp"]["prog"][0]["op"] == "split"
                       and t["inp"]["prog"][1]["op"] == "wl"][:1]
                 + [t for t in traces if len(t["inp"]["prog"]) == 3][:1])
-    vlib.validate_with_findings(ctx, "Trace_DatasetOps", traces, constants=TRACE_CONST, chunk=4000)
+    vlib.validate_with_findings(ctx, "Trace_DatasetOps", traces, constants=TRACE_CONST, chunk=6000)
     ctx.rule = ("cases = initial dataset (n, f, 1-D / 2-D targets with t columns, with/without weights and names, owned / view / "
                 "owned-with-offset storage, label pattern) x program (sequence of dataset operations with arguments, built along "
                 "the static Rust type), enumerated by TLC (Gen_DatasetOps) per (depth, argument alphabet) line of GEN "
